@@ -682,3 +682,215 @@ theorem rep_run {h : Heap P} {a : Abs P} (R : Rep h a) (ops : List (Op P)) (lg :
   | cons op ops ih => exact ih (rep_step R op lg.1) lg.2
 
 end Tromp.Ring
+
+namespace Tromp.Ring
+variable {P : Type} [DecidableEq P]
+
+/-- `Rep` does not depend on the order in which the list objects are enumerated. -/
+theorem rep_congr_mem {h : Heap P} {a a' : Abs P} (R : Rep h a) (hh : ∀ hd, hd ∈ a'.heads ↔ hd ∈ a.heads)
+    (hnd : a'.heads.Nodup) (hl : ∀ hd ∈ a.heads, a'.lists hd = a.lists hd) : Rep h a' := by
+  have hu : ∀ y, a'.used y ↔ a.used y := by
+    intro y; unfold Abs.used
+    constructor
+    · rintro ⟨hd, hm, hy⟩; exact ⟨hd, (hh hd).1 hm, by rw [← hl hd ((hh hd).1 hm)]; exact hy⟩
+    · rintro ⟨hd, hm, hy⟩; exact ⟨hd, (hh hd).2 hm, by rw [hl hd hm]; exact hy⟩
+  refine ⟨?_, hnd, ?_, fun y hy => R.free y (fun u => hy ((hu y).2 u))⟩
+  · intro hd hm; have hm' := (hh hd).1 hm; rw [hl hd hm']; exact R.rings hd hm'
+  · intro hd1 h1 hd2 h2 ne y hy
+    have h1' := (hh hd1).1 h1; have h2' := (hh hd2).1 h2
+    rw [hl hd1 h1'] at hy; rw [hl hd2 h2']; exact R.disj hd1 h1' hd2 h2' ne y hy
+
+/-- the script of moving several list objects: each `new` is move-constructed from its `old`, which stays in existence
+    (empty) — `list(list&&)` member by member, as the implicit move constructor of a mock object does. -/
+def moveAll (pairs : List (P × P)) : List (Op P) := pairs.flatMap (fun p => [Op.moveList p.1 p.2, Op.newList p.2])
+
+/-- what the abstract state is after `moveAll`. -/
+def movedAbs (a : Abs P) : List (P × P) → Abs P
+  | [] => a
+  | p :: ps => movedAbs ((a.step (.moveList p.1 p.2)).step (.newList p.2)) ps
+
+theorem run_moveAll_fst (a : Abs P) (h : Heap P) (ps : List (P × P)) : (run (a, h) (moveAll ps)).1 = movedAbs a ps := by
+  induction ps generalizing a h with
+  | nil => rfl
+  | cons p ps ih => simp only [moveAll, List.flatMap_cons, List.cons_append, List.nil_append, run, movedAbs]; exact ih _ _
+
+theorem used_after_move (a : Abs P) (new old : P) (hold : old ∈ a.heads) (hnd : a.heads.Nodup) (hnew : ¬ a.used new) (y : P) :
+    ((a.step (.moveList new old)).step (.newList old)).used y ↔ (a.used y ∨ y = new) := by
+  have hnewhead : new ∉ a.heads := fun m => hnew ⟨new, m, by simp⟩
+  have hno : new ≠ old := fun e => hnewhead (e ▸ hold)
+  unfold Abs.used
+  simp only [Abs.step, List.mem_cons]
+  constructor
+  · rintro ⟨hd, hm, hy⟩
+    rcases hm with rfl | rfl | hm
+    · simp only [if_true] at hy
+      have : y = hd := by simpa using hy
+      subst this; exact Or.inl ⟨y, hold, by simp⟩
+    · simp only [hno, if_false, if_true] at hy
+      rcases hy with rfl | hy
+      · exact Or.inr rfl
+      · exact Or.inl ⟨old, hold, by simp [hy]⟩
+    · have hne : hd ≠ old := fun e => by subst e; exact ((List.Nodup.mem_erase_iff hnd).1 hm).1 rfl
+      have hm' := List.mem_of_mem_erase hm
+      have hnn : hd ≠ new := fun e => hnewhead (e ▸ hm')
+      simp only [hne, hnn, if_false] at hy
+      exact Or.inl ⟨hd, hm', hy⟩
+  · rintro (⟨hd, hm, hy⟩ | rfl)
+    · by_cases e : hd = old
+      · subst e
+        rcases hy with rfl | hy
+        · exact ⟨y, Or.inl rfl, by simp⟩
+        · exact ⟨new, Or.inr (Or.inl rfl), by simp [hno, hy]⟩
+      · have hnn : hd ≠ new := fun e2 => hnewhead (e2 ▸ hm)
+        exact ⟨hd, Or.inr (Or.inr ((List.mem_erase_of_ne e).2 hm)), by simpa [e, hnn] using hy⟩
+    · exact ⟨y, Or.inr (Or.inl rfl), by simp [hno]⟩
+
+theorem head_not_element {h : Heap P} {a : Abs P} (R : Rep h a) {hd hd2 : P} (hm : hd ∈ a.heads) (hm2 : hd2 ∈ a.heads) :
+    hd ∉ a.lists hd2 := by
+  intro hin
+  by_cases e : hd = hd2
+  · subst e; have := (R.rings hd hm).2; simp at this; exact this.1 hin
+  · exact R.disj hd hm hd2 hm2 e hd (by simp) (by simp [hin])
+
+/-- moving several list objects: the script is legal and the heap represents the moved family. -/
+theorem rep_moveAll {h : Heap P} {a : Abs P} (R : Rep h a) (ps : List (P × P))
+    (c1 : ∀ p ∈ ps, p.2 ∈ a.heads) (c2 : (ps.map (·.2)).Nodup) (c3 : ∀ p ∈ ps, ¬ a.used p.1) (c4 : (ps.map (·.1)).Nodup) :
+    legalRun a (moveAll ps) ∧ Rep (run (a, h) (moveAll ps)).2 (run (a, h) (moveAll ps)).1 := by
+  induction ps generalizing a h with
+  | nil => exact ⟨trivial, R⟩
+  | cons p ps ih =>
+    obtain ⟨new, old⟩ := p
+    have hold : old ∈ a.heads := c1 (new, old) (by simp)
+    have hnew : ¬ a.used new := c3 (new, old) (by simp)
+    have hnewhead : new ∉ a.heads := fun m => hnew ⟨new, m, by simp⟩
+    have hno : new ≠ old := fun e => hnewhead (e ▸ hold)
+    have l1 : a.legal (.moveList new old) := ⟨hold, hnew⟩
+    have R1 := rep_step R (.moveList new old) l1
+    have l2 : (a.step (.moveList new old)).legal (.newList old) := by
+      rintro ⟨hd, hm, hy⟩
+      simp only [Abs.step, List.mem_cons] at hm hy
+      rcases hm with rfl | hm
+      · simp only [if_true] at hy
+        rcases hy with e | hy
+        · exact hno e.symm
+        · exact head_not_element R hold hold hy
+      · have hne : hd ≠ old := fun e => by subst e; exact ((List.Nodup.mem_erase_iff R.heads_nodup).1 hm).1 rfl
+        have hm' := List.mem_of_mem_erase hm
+        have hnn : hd ≠ new := fun e => hnewhead (e ▸ hm')
+        simp only [hnn, hne, if_false] at hy
+        rcases hy with e | hy
+        · exact hne e.symm
+        · exact head_not_element R hold hm' hy
+    have R2 := rep_step R1 (.newList old) l2
+    simp only [exec] at R2
+    have hu := used_after_move a new old hold R.heads_nodup hnew
+    have c1' : ∀ p ∈ ps, p.2 ∈ ((a.step (.moveList new old)).step (.newList old)).heads := by
+      intro p hp
+      have := c1 p (by simp [hp])
+      simp only [Abs.step, List.mem_cons]
+      by_cases e : p.2 = old
+      · exact Or.inl e
+      · exact Or.inr (Or.inr ((List.mem_erase_of_ne e).2 this))
+    have c2' : (ps.map (·.2)).Nodup := by simp only [List.map_cons, List.nodup_cons] at c2; exact c2.2
+    have c4' : (ps.map (·.1)).Nodup := by simp only [List.map_cons, List.nodup_cons] at c4; exact c4.2
+    have c3' : ∀ p ∈ ps, ¬ ((a.step (.moveList new old)).step (.newList old)).used p.1 := by
+      intro p hp hused
+      rcases (hu p.1).1 hused with hq | hq
+      · exact c3 p (by simp [hp]) hq
+      · simp only [List.map_cons, List.nodup_cons, List.mem_map] at c4
+        exact c4.1 ⟨p, hp, hq⟩
+    obtain ⟨lg, Rf⟩ := ih R2 c1' c2' c3' c4'
+    refine ⟨?_, ?_⟩
+    · simp only [moveAll, List.flatMap_cons, List.cons_append, List.nil_append, legalRun]
+      exact ⟨l1, l2, lg⟩
+    · simp only [moveAll, List.flatMap_cons, List.cons_append, List.nil_append, run]
+      exact Rf
+
+/-- the list family after `moveAll`: each `new` holds what its `old` held, each `old` is empty, the rest is untouched. -/
+def movedLists (a : Abs P) (ps : List (P × P)) (x : P) : List P :=
+  match ps.find? (fun p => p.1 = x) with
+  | some p => a.lists p.2
+  | none => if x ∈ ps.map (·.2) then [] else a.lists x
+
+theorem movedAbs_heads (a : Abs P) (ps : List (P × P)) (c1 : ∀ p ∈ ps, p.2 ∈ a.heads) (y : P) :
+    y ∈ (movedAbs a ps).heads ↔ y ∈ a.heads ∨ y ∈ ps.map (·.1) := by
+  induction ps generalizing a with
+  | nil => simp [movedAbs]
+  | cons p ps ih =>
+    obtain ⟨new, old⟩ := p
+    have hold : old ∈ a.heads := c1 (new, old) (by simp)
+    have c1' : ∀ p ∈ ps, p.2 ∈ ((a.step (.moveList new old)).step (.newList old)).heads := by
+      intro p hp
+      have := c1 p (by simp [hp])
+      simp only [Abs.step, List.mem_cons]
+      by_cases e : p.2 = old
+      · exact Or.inl e
+      · exact Or.inr (Or.inr ((List.mem_erase_of_ne e).2 this))
+    rw [movedAbs, ih _ c1']
+    simp only [Abs.step, List.mem_cons, List.map_cons]
+    constructor
+    · rintro ((rfl | rfl | hm) | hm)
+      · exact Or.inl hold
+      · exact Or.inr (Or.inl rfl)
+      · exact Or.inl (List.mem_of_mem_erase hm)
+      · exact Or.inr (Or.inr hm)
+    · rintro (hm | rfl | hm)
+      · by_cases e : y = old
+        · exact Or.inl (Or.inl e)
+        · exact Or.inl (Or.inr (Or.inr ((List.mem_erase_of_ne e).2 hm)))
+      · exact Or.inl (Or.inr (Or.inl rfl))
+      · exact Or.inr hm
+
+theorem movedAbs_lists (a : Abs P) (ps : List (P × P)) (c2 : (ps.map (·.2)).Nodup) (c4 : (ps.map (·.1)).Nodup)
+    (c5 : ∀ p ∈ ps, ∀ q ∈ ps, p.1 ≠ q.2) (x : P) :
+    (movedAbs a ps).lists x = movedLists a ps x := by
+  induction ps generalizing a with
+  | nil => simp [movedAbs, movedLists]
+  | cons p ps ih =>
+    obtain ⟨new, old⟩ := p
+    have c2' : (ps.map (·.2)).Nodup := by simp only [List.map_cons, List.nodup_cons] at c2; exact c2.2
+    have c4' : (ps.map (·.1)).Nodup := by simp only [List.map_cons, List.nodup_cons] at c4; exact c4.2
+    have c5' : ∀ p ∈ ps, ∀ q ∈ ps, p.1 ≠ q.2 := fun p hp q hq => c5 p (by simp [hp]) q (by simp [hq])
+    have hno : new ≠ old := c5 (new, old) (by simp) (new, old) (by simp)
+    have hold_tail : old ∉ ps.map (·.2) := by simp only [List.map_cons, List.nodup_cons] at c2; exact c2.1
+    have hnew_tail : new ∉ ps.map (·.1) := by simp only [List.map_cons, List.nodup_cons] at c4; exact c4.1
+    have hnew_olds : new ∉ ps.map (·.2) := by
+      intro hm; obtain ⟨q, hq, e⟩ := List.mem_map.mp hm
+      exact c5 (new, old) (by simp) q (by simp [hq]) e.symm
+    have hold_news : old ∉ ps.map (·.1) := by
+      intro hm; obtain ⟨q, hq, e⟩ := List.mem_map.mp hm
+      exact c5 q (by simp [hq]) (new, old) (by simp) e
+    rw [movedAbs, ih _ c2' c4' c5']
+    -- the lists of the state after the first pair, where the tail reads them
+    have hl : ∀ z, ((a.step (.moveList new old)).step (.newList old)).lists z =
+        if z = old then [] else if z = new then a.lists old else a.lists z := by
+      intro z; simp only [Abs.step]
+      by_cases e1 : z = old
+      · simp [e1]
+      · by_cases e2 : z = new <;> simp [e1, e2]
+    unfold movedLists
+    simp only [List.find?_cons, List.map_cons, List.mem_cons]
+    by_cases ex : new = x
+    · subst ex
+      have hnone : ps.find? (fun p => decide (p.1 = new)) = none := by
+        rw [List.find?_eq_none]; intro q hq; simp only [decide_eq_true_eq]
+        intro e; exact hnew_tail (List.mem_map.mpr ⟨q, hq, e⟩)
+      simp only [decide_true, hnone, hnew_olds, if_false, hl, hno, if_true]
+    · simp only [ex, decide_false]
+      cases hf : ps.find? (fun p => decide (p.1 = x)) with
+      | some q =>
+        have hq := List.mem_of_find?_eq_some hf
+        have hq2 : q.2 ≠ old := fun e => hold_tail (List.mem_map.mpr ⟨q, hq, e⟩)
+        have hq3 : q.2 ≠ new := fun e => hnew_olds (List.mem_map.mpr ⟨q, hq, e⟩)
+        simp only [hl, hq2, hq3, if_false]
+      | none =>
+        simp only
+        by_cases hx : x ∈ ps.map (·.2)
+        · simp [hx]
+        · simp only [hx, if_false, or_false, hl]
+          by_cases e1 : x = old
+          · simp [e1]
+          · have : ¬ old = x := fun e => e1 e.symm
+            simp [e1, this, Ne.symm ex]
+
+end Tromp.Ring
